@@ -20,8 +20,12 @@ use crate::model_fn_items as fn_items;
 
 const SELF_ID: u8 = 0;
 
+/// The model's addresses are shared between node ids (a snapshot may show two ids behind one address, one after the
+/// other or at the same time - a host that came back under a new id), and so are the real ones: the address does not
+/// depend on the id.
 fn addr(id: u64, a: u64) -> SocketAddr {
-    SocketAddr::new(IpAddr::V4(Ipv4Addr::new(10, 1, id as u8, a as u8)), 7000)
+    let _ = id;
+    SocketAddr::new(IpAddr::V4(Ipv4Addr::new(10, 1, 0, a as u8)), 7000)
 }
 
 fn pair_of(m: &ClusterMember) -> (u64, u64) {
